@@ -1636,15 +1636,14 @@ pub fn gen_epoch(rng: &mut Rng) -> EpochCfg {
     }
 }
 
-/// hash field / sorted-set member that is not valid UTF-8: the containers store it in lossy form (known
-/// findings `C01:{hash-field,zset-member}-not-binary-safe`, reported on the single commands); scripts stay
-/// clear of that cause. Set members are binary safe since the fix 'set members are binary safe'.
+/// sorted-set member that is not valid UTF-8: the container stores it in lossy form (known finding
+/// `C01:zset-member-not-binary-safe`, reported on the single commands); scripts stay clear of that cause.
+/// Set members and hash fields are binary safe since the fixes c9e4f2c / 8832ec4.
 pub fn has_binary_name(cmd: &Command) -> bool {
     let bad = |x: &SDS| std::str::from_utf8(x.as_bytes()).is_err();
     match cmd {
-        Command::ZRem(_, ms) | Command::HDel(_, ms) => ms.iter().any(bad),
-        Command::HGet(_, m) | Command::HExists(_, m) | Command::ZScore(_, m) | Command::ZRank(_, m) | Command::HIncrBy(_, m, _) => bad(m),
-        Command::HSet(_, fvs) => fvs.iter().any(|(f, _)| bad(f)),
+        Command::ZRem(_, ms) => ms.iter().any(bad),
+        Command::ZScore(_, m) | Command::ZRank(_, m) => bad(m),
         Command::ZAdd { pairs, .. } => pairs.iter().any(|(_, m)| bad(m)),
         _ => false,
     }
@@ -1663,11 +1662,6 @@ pub fn cause_variant(cmd: &Command, ro: bool) -> Option<(String, &'static str, b
         // lossy names is what the code does
         let l = |v: &Vec<SDS>| v.iter().map(lossy).collect::<Vec<_>>();
         let (lc, sig) = match cmd {
-            Command::HSet(k, fvs) => (Command::HSet(k.clone(), fvs.iter().map(|(f, v)| (lossy(f), v.clone())).collect()), "C01:hash-field-not-binary-safe"),
-            Command::HDel(k, fs) => (Command::HDel(k.clone(), l(fs)), "C01:hash-field-not-binary-safe"),
-            Command::HGet(k, f) => (Command::HGet(k.clone(), lossy(f)), "C01:hash-field-not-binary-safe"),
-            Command::HExists(k, f) => (Command::HExists(k.clone(), lossy(f)), "C01:hash-field-not-binary-safe"),
-            Command::HIncrBy(k, f, d) => (Command::HIncrBy(k.clone(), lossy(f), *d), "C01:hash-field-not-binary-safe"),
             Command::ZAdd { key, pairs, nx, xx, gt, lt, ch } => (
                 Command::ZAdd { key: key.clone(), pairs: pairs.iter().map(|(s, m)| (*s, lossy(m))).collect(), nx: *nx, xx: *xx, gt: *gt, lt: *lt, ch: *ch },
                 "C01:zset-member-not-binary-safe",
